@@ -333,6 +333,10 @@ func (w world) RunCase(t *tape.Tape, st *super.Stats) *super.Violation {
 	strategy := t.Draw(5)
 	param := 1 + t.Draw(8)
 	level := []uint32{0, 2, 6, 16}[t.Draw(4)]
+	stmtYields := t.Rare(3) // switch points between any two statements of xpath/* (narrow windows)
+	if stmtYields && level == 0 {
+		level = 6
+	}
 	prio := make([]int, W)
 	for i := range prio {
 		prio[i] = t.Draw(1000)
@@ -390,7 +394,7 @@ func (w world) RunCase(t *tape.Tape, st *super.Stats) *super.Violation {
 	}
 	desc := func() string {
 		var b strings.Builder
-		fmt.Fprintf(&b, "first case of the process: %v; clients: %d; strategy %d/%d; yield level %d/16\n", first, W, strategy, param, level)
+		fmt.Fprintf(&b, "first case of the process: %v; clients: %d; strategy %d/%d; yield level %d/16; statement-level yields %v\n", first, W, strategy, param, level, stmtYields)
 		for i, e := range sharedExpr {
 			fmt.Fprintf(&b, "shared machine %d: %q\n", i, e)
 		}
@@ -417,6 +421,11 @@ func (w world) RunCase(t *tape.Tape, st *super.Stats) *super.Violation {
 	results := make([][]outcome, W)
 	s = sched.New(pick)
 	s.Level = level
+	s.Stmt = stmtYields
+	if stmtYields {
+		s.MaxSteps = 200000
+		inc("reach:statement_level_yields")
+	}
 	for c := 0; c < W; c++ {
 		c := c
 		results[c] = make([]outcome, len(progs[c]))
